@@ -1,6 +1,7 @@
 import Mieru.Driver.Core
 import Mieru.Model.Pattern
 import Mieru.Model.Padding
+import Mieru.Model.FixedInt
 namespace Mieru.Driver.Pattern
 open Mieru.Driver Mieru.Pattern
 
@@ -117,6 +118,8 @@ def natList? (s : String) : Option (List Nat) := (s.splitOn ",").mapM (·.toNat?
 
 /-- ops:
   pat-eff <hostSeed> <raw0,…,raw9> <17 pattern tokens>  → ok <17 tokens of Effective()> <Validate(Effective()): ok|enum> | err <enum>
+  pat-eff-sha <hostSeed> <17 pattern tokens>            → same reply as pat-eff, with rng.FixedInt = the SHA-256 model `fixedIntSha` (no raw values passed in)
+  pat-fixedint <n> <hex of the hint bytes>              → ok <FixedInt(n, hint)>   (n any Go int)
   pat-validate <17 pattern tokens>                      → ok | err <enum>
   pat-rewrite-range <minLen> <maxLen> <nonceSize>       → ok <lo> <hi>
   pat-rewrite-flags <stateless> <applyToAll> <n>        → ok <0/1 string>
@@ -136,6 +139,17 @@ def handler : IO Handler := pure fun op args => pure <|
       | .ok e => some s!"ok {showPattern e} {showV (validate e)}"
       | .error e => some s!"err {showErr e}"
     | _, _, _ => some "bad-op"
+  | "pat-eff-sha", host :: pat =>
+    match host.toInt?, parsePattern pat with
+    | some host, some p =>
+      match newConfig Mieru.FixedInt.fixedIntSha host p with
+      | .ok e => some s!"ok {showPattern e} {showV (validate e)}"
+      | .error e => some s!"err {showErr e}"
+    | _, _ => some "bad-op"
+  | "pat-fixedint", [n, h] =>
+    match n.toInt?, parseHexBA h with
+    | some n, some h => some s!"ok {Mieru.FixedInt.fixedIntBytes n h}"
+    | _, _ => some "bad-op"
   | "pat-validate", pat =>
     match parsePattern pat with
     | some p => match validate p with
